@@ -607,3 +607,24 @@ Proof.
   apply pem_layout_invariant; try assumption.
   eapply rx_compat_of_oracle; eassumption.
 Qed.
+
+(* ------------------------------------------------------------------ the property's perturbations as alignments *)
+Lemma lleft_keep l : lleft (map BSig l) = l.
+Proof. induction l as [|t l IH]; [reflexivity|]. cbn. rewrite IH. reflexivity. Qed.
+Lemma lright_keep l : lright (map BSig l) = l.
+Proof. induction l as [|t l IH]; [reflexivity|]. cbn. rewrite IH. reflexivity. Qed.
+
+(** one site: a run of free gap tokens (whitespace, newlines, comments the graph cannot see) is replaced by
+    another one whose last token has the same class - "replace a whitespace run by other whitespace or
+    newlines", "double a blank line", "insert a comment inside whitespace", "insert an inline comment before a
+    newline".  Several sites at once are a block list with several [BGap]s. *)
+Lemma layout_one_site g pre post w x w' x' :
+  Forall (okgap g) (w ++ [x]) -> Forall (okgap g) (w' ++ [x']) -> wsn g x = wsn g x' ->
+  exists bs, Forall (blk_ok g) bs /\ lleft bs = pre ++ (w ++ [x]) ++ post /\ lright bs = pre ++ (w' ++ [x']) ++ post.
+Proof.
+  intros H1 H2 H3. exists (map BSig pre ++ BGap w x w' x' :: map BSig post). split; [|split].
+  - apply Forall_app. split; [apply Forall_forall; intros b Hb; apply in_map_iff in Hb as (t & <- & _); exact I|].
+    constructor; [cbn; auto|]. apply Forall_forall. intros b Hb. apply in_map_iff in Hb as (t & <- & _). exact I.
+  - rewrite lleft_app. cbn [lleft flat_map bleft]. fold (lleft (map BSig post)). rewrite !lleft_keep. reflexivity.
+  - rewrite lright_app. cbn [lright flat_map bright]. fold (lright (map BSig post)). rewrite !lright_keep. reflexivity.
+Qed.
